@@ -553,6 +553,152 @@ theorem hits_iff (skip : Str → Bool) (l : List Str) (k : Str) :
     hits lower skip l k = true ↔ ∃ sn ∈ l, skip sn = false ∧ lower sn = k := by
   simp [hits, List.any_eq_true]
 
+/-! ## the states a concurrent reader can see during the two loops -/
+
+theorem hits_mem (skip : Str → Bool) (l : List Str) (k : Str) (hlow : ∀ n ∈ l, lower n = n) :
+    hits lower skip l k = true ↔ k ∈ l ∧ skip k = false := by
+  rw [hits_iff]
+  constructor
+  · rintro ⟨sn, hsn, hs, hk⟩
+    have := hlow sn hsn
+    rw [this] at hk
+    subst hk
+    exact ⟨hsn, hs⟩
+  · rintro ⟨h1, h2⟩
+    exact ⟨k, h1, h2, hlow k h1⟩
+
+
+/-- `s` resolves every key like `a` or like `b` -/
+def Between (a b s : Mgr) : Prop := ∀ k, s.look k = a.look k ∨ s.look k = b.look k
+
+theorem delOwned_removes (c : Str) (stop : Bool) (skip : Str → Bool) (l : List Str) (m : Mgr) (k : Str) :
+    (delOwned lower c stop skip l m).look k = none ∨ (delOwned lower c stop skip l m).look k = m.look k := by
+  rw [look_delOwned]
+  split
+  · exact Or.inl rfl
+  · exact Or.inr rfl
+
+theorem between_delOwnedT (c : Str) (stop : Bool) (skip : Str → Bool) (l : List Str) (m : Mgr) :
+    ∀ s ∈ delOwnedT lower c stop skip l m, Between m (delOwned lower c stop skip l m) s := by
+  induction l generalizing m with
+  | nil => intro s hs; simp [delOwnedT] at hs
+  | cons sn rest ih =>
+    intro s hs
+    rw [delOwned_cons]
+    unfold delStep
+    unfold delOwnedT at hs
+    by_cases hsk : skip sn = true
+    · rw [if_pos hsk] at hs ⊢
+      exact ih m s hs
+    · rw [if_neg hsk] at hs ⊢
+      by_cases ho : m.ownedBy lower sn c = true
+      · rw [if_pos ho] at hs ⊢
+        -- once the key is deleted it stays deleted until the end of the loop
+        have hgone : ∀ k, k = lower sn →
+            (delOwned lower c stop skip rest (m.doDelete lower sn stop)).look k = none := by
+          intro k hk
+          rcases delOwned_removes lower c stop skip rest (m.doDelete lower sn stop) k with h | h
+          · exact h
+          · rw [h, look_doDelete, if_pos hk]
+        rcases List.mem_cons.1 hs with h | h
+        · subst h
+          intro k
+          by_cases hk : k = lower sn
+          · right; rw [hgone k hk, look_doDelete, if_pos hk]
+          · left; rw [look_doDelete, if_neg hk]
+        · intro k
+          rcases ih _ s h k with h1 | h1
+          · by_cases hk : k = lower sn
+            · right
+              rw [h1, hgone k hk, look_doDelete, if_pos hk]
+            · left; rw [h1, look_doDelete, if_neg hk]
+          · exact Or.inr h1
+      · rw [if_neg ho] at hs ⊢
+        exact ih m s hs
+
+theorem between_addNewT (p : Nat) (skip : Str → Bool) (l : List Str) (m : Mgr) :
+    ∀ s ∈ addNewT lower p skip l m, Between m (addNew lower p skip l m) s := by
+  induction l generalizing m with
+  | nil => intro s hs; simp [addNewT] at hs
+  | cons n rest ih =>
+    intro s hs
+    unfold addNew
+    unfold addNewT at hs
+    by_cases hsk : skip n = true
+    · simp only [hsk, if_true] at hs ⊢
+      exact ih m s hs
+    · simp only [hsk, Bool.false_eq_true, if_false] at hs ⊢
+      have hfin : ∀ k, lower n = k →
+          (addNew lower p skip rest (m.addWithKey lower n p)).look k = some p := by
+        intro k hk
+        rw [look_addNew]
+        split
+        · rfl
+        · rw [look_addWithKey, if_pos hk]
+      rcases List.mem_cons.1 hs with h | h
+      · subst h
+        intro k
+        by_cases hk : lower n = k
+        · right; rw [hfin k hk, look_addWithKey, if_pos hk]
+        · left; rw [look_addWithKey, if_neg hk]
+      · intro k
+        rcases ih _ s h k with h1 | h1
+        · by_cases hk : lower n = k
+          · right; rw [h1, hfin k hk, look_addWithKey, if_pos hk]
+          · left; rw [h1, look_addWithKey, if_neg hk]
+        · exact Or.inr h1
+
+/-- during `AddOrUpdateForServerNames` (names lower-cased, lists different, no conflict): every intermediate state
+    resolves every key like the state before or like the state after -/
+theorem between_addOrUpdateT (m1 : Mgr) (old : List Str) (p : Nat) (ci : CI) (hp : m1.heap[p]? = some ci)
+    (hne : old ≠ loadServerNames lower ci)
+    (hchk : checkServerNameConflict lower m1 ci.cluster old (loadServerNames lower ci) = false)
+    (holdlow : ∀ n ∈ old, lower n = n) (hnewlow : ∀ n ∈ loadServerNames lower ci, lower n = n) :
+    ∀ s ∈ addOrUpdateForServerNamesT lower m1 old p,
+      Between m1 (addNew lower p (fun n => decide (n ∈ old)) (loadServerNames lower ci)
+        (delOwned lower ci.cluster false (fun o => decide (o ∈ loadServerNames lower ci)) old m1)) s := by
+  intro s hs
+  unfold addOrUpdateForServerNamesT at hs
+  rw [hp] at hs
+  simp only at hs
+  rw [if_neg hne, hchk] at hs
+  simp only [Bool.false_eq_true, if_false] at hs
+  -- the state between the two loops
+  have hF : ∀ k,
+      (delOwned lower ci.cluster false (fun o => decide (o ∈ loadServerNames lower ci)) old m1).look k = m1.look k ∨
+      (delOwned lower ci.cluster false (fun o => decide (o ∈ loadServerNames lower ci)) old m1).look k =
+        (addNew lower p (fun n => decide (n ∈ old)) (loadServerNames lower ci)
+          (delOwned lower ci.cluster false (fun o => decide (o ∈ loadServerNames lower ci)) old m1)).look k := by
+    intro k
+    rw [look_addNew]
+    by_cases hh : hits lower (fun n => decide (n ∈ old)) (loadServerNames lower ci) k = true
+    · left
+      have h1 := (hits_mem lower _ _ _ hnewlow).1 hh
+      rw [look_delOwned]
+      have h2 : hits lower (fun o => decide (o ∈ loadServerNames lower ci)) old k = false := by
+        cases h3 : hits lower (fun o => decide (o ∈ loadServerNames lower ci)) old k with
+        | false => rfl
+        | true =>
+          have := (hits_mem lower _ _ _ holdlow).1 h3
+          simp at this h1
+          exact absurd this.1 h1.2
+      rw [h2]
+      simp
+    · right; rw [if_neg hh]
+  rcases List.mem_append.1 hs with h | h
+  · intro k
+    rcases between_delOwnedT lower _ _ _ _ _ s h k with h1 | h1
+    · exact Or.inl h1
+    · rcases hF k with h2 | h2
+      · left; rw [h1, h2]
+      · right; rw [h1, h2]
+  · intro k
+    rcases between_addNewT lower _ _ _ _ s h k with h1 | h1
+    · rcases hF k with h2 | h2
+      · left; rw [h1, h2]
+      · right; rw [h1, h2]
+    · exact Or.inr h1
+
 /-! ## consequences of the invariant -/
 
 theorem names_lower (hl : ∀ s, lower (lower s) = lower s) (ci : CI) (hc : lower ci.cluster = ci.cluster)
@@ -676,18 +822,6 @@ theorem deleteForServerNames_char (hl : ∀ s, lower (lower s) = lower s) (m : M
 
 /-! ## what an applied create/update event does -/
 
-theorem hits_mem (skip : Str → Bool) (l : List Str) (k : Str) (hlow : ∀ n ∈ l, lower n = n) :
-    hits lower skip l k = true ↔ k ∈ l ∧ skip k = false := by
-  rw [hits_iff]
-  constructor
-  · rintro ⟨sn, hsn, hs, hk⟩
-    have := hlow sn hsn
-    rw [this] at hk
-    subst hk
-    exact ⟨hsn, hs⟩
-  · rintro ⟨h1, h2⟩
-    exact ⟨k, h1, h2, hlow k h1⟩
-
 theorem heldByOther_congr (m m1 : Mgr) (h : ∀ k, clusterAt m1 k = clusterAt m k) (n c : Str) :
     m1.heldByOther lower n c = m.heldByOther lower n c := by
   rw [Bool.eq_iff_iff, heldByOther_iff, heldByOther_iff, h]
@@ -771,7 +905,10 @@ theorem create_char (hl : ∀ s, lower (lower s) = lower s) (m : Mgr) (hI : Inv 
     (hchk : checkUpstreamServerNameConflict lower m c spec = false) :
     ∃ m2, addOrUpdateForServerNames lower
             { m with heap := m.heap ++ [({ cluster := c, aliases := spec.aliases, cert := spec.cert, ca := spec.ca } : CI)] }
-            [] m.heap.length = some m2 ∧ AppliedChar lower c spec m m2 := by
+            [] m.heap.length = some m2 ∧ AppliedChar lower c spec m m2 ∧
+          ∀ s ∈ addOrUpdateForServerNamesT lower
+            { m with heap := m.heap ++ [({ cluster := c, aliases := spec.aliases, cert := spec.cert, ca := spec.ca } : CI)] }
+            [] m.heap.length, Between m m2 s := by
   let ci0 : CI := { cluster := c, aliases := spec.aliases, cert := spec.cert, ca := spec.ca }
   let m1 : Mgr := { m with heap := m.heap ++ [ci0] }
   have hnone := none_of_get_none lower hI hc hg
@@ -798,13 +935,14 @@ theorem create_char (hl : ∀ s, lower (lower s) = lower s) (m : Mgr) (hI : Inv 
   have hcc : checkServerNameConflict lower m1 ci0.cluster [] (loadServerNames lower ci0) = false := by
     rw [check_congr lower m m1 hcl1]
     exact hchk0
+  have hbet := between_addOrUpdateT lower m1 [] m.heap.length ci0 hp hne hcc (fun n hn => by cases hn) hnewlow
   show ∃ m2, addOrUpdateForServerNames lower m1 [] m.heap.length = some m2 ∧ _
   unfold addOrUpdateForServerNames
   rw [hp]
   simp only
   rw [if_neg hne, hcc]
   simp only [Bool.false_eq_true, if_false]
-  refine ⟨_, rfl, ⟨m.heap.length, ci0, ?_, rfl, rfl, rfl, rfl, ?_, ?_, ?_, ?_, hfree, ?_⟩⟩
+  refine ⟨_, rfl, ⟨m.heap.length, ci0, ?_, rfl, rfl, rfl, rfl, ?_, ?_, ?_, ?_, hfree, ?_⟩, hbet⟩
   · rw [heap_addNew, heap_delOwned]; exact hp
   · intro q hq
     rw [heap_addNew, heap_delOwned]
@@ -858,7 +996,9 @@ theorem update_char (hl : ∀ s, lower (lower s) = lower s) (m : Mgr) (hI : Inv 
     (hchk : checkUpstreamServerNameConflict lower m c spec = false) :
     info.cluster = c ∧
     ∃ m2, addOrUpdateForServerNames lower { m with heap := m.heap.set p (info.sync spec) }
-            (loadServerNames lower info) p = some m2 ∧ AppliedChar lower c spec m m2 := by
+            (loadServerNames lower info) p = some m2 ∧ AppliedChar lower c spec m m2 ∧
+          ∀ s ∈ addOrUpdateForServerNamesT lower { m with heap := m.heap.set p (info.sync spec) }
+            (loadServerNames lower info) p, Between m m2 s := by
   have hcl := cluster_of_check lower m c hc spec p info hg hchk
   refine ⟨hcl, ?_⟩
   obtain ⟨hp, hci⟩ := (get_some_iff lower m c p info).1 hg
@@ -925,7 +1065,17 @@ theorem update_char (hl : ∀ s, lower (lower s) = lower s) (m : Mgr) (hI : Inv 
   rw [hnew]
   by_cases he : loadServerNames lower info = objNames lower c spec
   · rw [if_pos he]
-    refine ⟨m1, rfl, ⟨p, info', hp1, hcl, rfl, rfl, rfl, hother, rfl, halive, ?_, hfree, howner⟩⟩
+    have htr : ∀ s ∈ addOrUpdateForServerNamesT lower m1 (loadServerNames lower info) p, Between m m1 s := by
+      intro s hs
+      exfalso
+      have : addOrUpdateForServerNamesT lower m1 (loadServerNames lower info) p = [] := by
+        unfold addOrUpdateForServerNamesT
+        rw [hp1]
+        simp only
+        rw [hnew, if_pos he]
+      rw [this] at hs
+      cases hs
+    refine ⟨m1, rfl, ⟨p, info', hp1, hcl, rfl, rfl, rfl, hother, rfl, halive, ?_, hfree, howner⟩, htr⟩
     intro k
     show m.look k = _
     by_cases hk : k ∈ objNames lower c spec
@@ -946,9 +1096,12 @@ theorem update_char (hl : ∀ s, lower (lower s) = lower s) (m : Mgr) (hI : Inv 
       show checkServerNameConflict lower m info.cluster _ _ = false
       rw [hcl]
       exact hchk0
+    have hbet := between_addOrUpdateT lower m1 (loadServerNames lower info) p info' hp1
+      (by rw [hnew]; exact he) (by rw [hnew]; exact hcc) holdlow (by rw [hnew]; exact hnewlow)
+    rw [hnew] at hbet
     rw [hcc]
     simp only [Bool.false_eq_true, if_false]
-    refine ⟨_, rfl, ⟨p, info', ?_, hcl, rfl, rfl, rfl, ?_, ?_, halive, ?_, hfree, howner⟩⟩
+    refine ⟨_, rfl, ⟨p, info', ?_, hcl, rfl, rfl, rfl, ?_, ?_, halive, ?_, hfree, howner⟩, hbet⟩
     · rw [heap_addNew, heap_delOwned]; exact hp1
     · intro q hq
       rw [heap_addNew, heap_delOwned]
@@ -1263,12 +1416,12 @@ theorem sync_char (hl : ∀ s, lower (lower s) = lower s) (m : Mgr) (hI : Inv lo
           unfold deleteForServerNames
           rw [hg]
         · rw [if_neg hb]
-          obtain ⟨m2, hm2, hchar⟩ := create_char lower hl m hI (lower name) hc spec hg hchk'
+          obtain ⟨m2, hm2, hchar, _⟩ := create_char lower hl m hI (lower name) hc spec hg hchk'
           rw [hm2]
           exact StepChar.applied spec rfl rfl (by simpa using hb) hchar
       | some pi =>
         obtain ⟨p, info⟩ := pi
-        obtain ⟨hcl, m2, hm2, hchar⟩ := update_char lower hl m hI (lower name) hc spec p info hg hchk'
+        obtain ⟨hcl, m2, hm2, hchar, _⟩ := update_char lower hl m hI (lower name) hc spec p info hg hchk'
         simp only
         rw [if_neg (by simpa using hcl)]
         by_cases hb : spec.bad = true
@@ -1276,6 +1429,53 @@ theorem sync_char (hl : ∀ s, lower (lower s) = lower s) (m : Mgr) (hI : Inv lo
           exact StepChar.requeue rfl rfl
         · rw [if_neg hb, hm2]
           exact StepChar.applied spec rfl rfl (by simpa using hb) hchar
+
+/-- every state a concurrent reader can observe during one handler invocation resolves every key like the
+    state before or like the state after the invocation -/
+theorem trace_between (hl : ∀ s, lower (lower s) = lower s) (m : Mgr) (hI : Inv lower m) (name : Str)
+    (latest : Option Spec) :
+    ∀ s ∈ syncTrace lower m name latest, Between m (syncUpstreamCluster lower m name latest).1 s := by
+  have hc : lower (lower name) = lower name := hl name
+  unfold syncUpstreamCluster syncTrace
+  cases latest with
+  | none =>
+    simp only
+    unfold deleteForServerNamesT deleteForServerNames
+    cases hg : m.get lower (lower name) with
+    | none => intro s hs; cases hs
+    | some pi =>
+      obtain ⟨p, ci⟩ := pi
+      exact between_delOwnedT lower _ _ _ _ m
+  | some spec =>
+    simp only
+    by_cases hchk : checkUpstreamServerNameConflict lower m (lower name) spec = true
+    · simp only [if_pos hchk]
+      intro s hs; cases hs
+    · simp only [if_neg hchk]
+      have hchk' : checkUpstreamServerNameConflict lower m (lower name) spec = false := by simpa using hchk
+      cases hg : m.get lower (lower name) with
+      | none =>
+        simp only
+        by_cases hb : spec.bad = true
+        · simp only [if_pos hb]
+          unfold deleteForServerNamesT
+          rw [hg]
+          intro s hs; cases hs
+        · simp only [if_neg hb]
+          obtain ⟨m2, hm2, _, hbet⟩ := create_char lower hl m hI (lower name) hc spec hg hchk'
+          rw [hm2]
+          exact hbet
+      | some pi =>
+        obtain ⟨p, info⟩ := pi
+        obtain ⟨hcl, m2, hm2, _, hbet⟩ := update_char lower hl m hI (lower name) hc spec p info hg hchk'
+        have hne : ¬ (info.cluster ≠ lower name) := by simpa using hcl
+        simp only [if_neg hne]
+        by_cases hb : spec.bad = true
+        · simp only [if_pos hb]
+          intro s hs; cases hs
+        · simp only [if_neg hb]
+          rw [hm2]
+          exact hbet
 
 end
 end KG.Lemmas.Names
